@@ -352,6 +352,9 @@ func (e *Evaluator) evalAssignment(assignment *parser.AssignmentStmt) error {
 	val = copyOrRef(val)
 	switch n := assignment.Target.(type) {
 	case *parser.Var:
+		if _, ok := e.scope.get(n.Name); !ok && n.Name != "_" {
+			return newErr(assignment, fmt.Errorf("%w: %s", ErrVarNotSet, n.Name))
+		}
 		e.scope.update(n.Name, val)
 		return nil
 	case *parser.IndexExpression:
